@@ -284,6 +284,68 @@ def evalArg (actuals : List V) : Arg → V
 
 def evalFwd (h : Fwd) (actuals : List V) : List V := h.args.map (evalArg actuals)
 
+/-! ### round 5c: a statement method of the transaction's session — what it returns -/
+
+/-- the statements of a `…Ctx` statement method, classified (a closed computation on the extracted term) -/
+inductive MOp
+  | span          -- ctx, span := startSpan(ctx, …)
+  | deferEndSpan  -- defer func() { endSpan(span, err) }()
+  | callAssign    -- …, err = / := <the one call into database/sql: exec( / t.Tx.PrepareContext(>
+  | retNone       -- return            (named result err)
+  | retCall       -- return query(ctx, t.Tx, …)
+  | retNilErr     -- return nil, err
+  | retValNil     -- return statement{…}, nil
+  | ifErr (thn els : List MOp)   -- if err != nil { thn } else { els }
+  | bad (src : String)
+  deriving Repr
+
+def classify : Blk → List MOp
+  | .done => []
+  | .other src k =>
+    (if src.startsWith "ctx, span := startSpan(ctx, " then MOp.span
+     else if src = "return nil, err" then .retNilErr
+     else if src = "return statement{ query: q, stmt: stmt, brk: breaker.NopBreaker(), }, nil" then .retValNil
+     else .bad src) :: classify k
+  | .deferFn (.other "endSpan(span, err)" .done) k => .deferEndSpan :: classify k
+  | .assignErr (.call c) k =>
+    (if c.startsWith "exec(ctx, t.Tx, " || c.startsWith "t.Tx.PrepareContext(ctx, " then MOp.callAssign else .bad c)
+      :: classify k
+  | .ifc "" "err != nil" thn els k => .ifErr (classify thn) (classify els) :: classify k
+  | .ret .none => [.retNone]
+  | .ret (.call c) => [if c.startsWith "query(ctx, t.Tx, " then MOp.retCall else .bad c]
+  | _ => [.bad "?"]
+
+structure MSt where
+  err   : Option Err := none               -- the named result `err`
+  ret   : Option (Option Err) := none      -- the error the method returned (none: still running)
+  stuck : Bool := false
+
+/-- meaning of the classified statements: span and the deferred endSpan do not touch the result; the one call
+into database/sql yields `callee` (its error), assigned to `err` or returned directly; `return` / `return nil,
+err` hand back `err`, `return <value>, nil` hands back nil; anything else is `stuck`. -/
+def runOps (callee : Option Err) (fuel : Nat) : List MOp → MSt → MSt
+  | [], s => s
+  | op :: k, s =>
+    if s.ret.isSome || s.stuck then s else
+    match fuel with
+    | 0 => { s with stuck := true }
+    | fuel + 1 =>
+      match op with
+      | .span => runOps callee fuel k s
+      | .deferEndSpan => runOps callee fuel k s
+      | .callAssign => runOps callee fuel k { s with err := callee }
+      | .retNone => { s with ret := some s.err }
+      | .retCall => { s with err := callee, ret := some callee }
+      | .retNilErr => { s with ret := some s.err }
+      | .retValNil => { s with ret := some none }
+      | .ifErr thn els =>
+        runOps callee fuel k (if s.err.isSome then runOps callee fuel thn s else runOps callee fuel els s)
+      | .bad _ => { s with stuck := true }
+
+/-- the method hands its caller exactly the error of its one call into database/sql -/
+def returnsCalleeError (b : Blk) (callee : Option Err) : Bool :=
+  !(runOps callee 16 (classify b) {}).stuck && (runOps callee 16 (classify b) {}).ret == some callee
+
 /-- `transactOnConn` as pinned when this check was built (completion of the body is inferred from
 `recover() != nil` alone) -/
 def pinnedBlk : Blk :=
